@@ -6,6 +6,7 @@ import (
 	"math"
 
 	"verifharness/internal/core"
+	"verifharness/internal/refcolor"
 	"verifharness/internal/src"
 )
 
@@ -117,6 +118,12 @@ func c17Text(rng *core.RNG, kind string, n int) []uint16 {
 		case "bmp":
 			c := uint16(0x00A0 + rng.Intn(0xD000))
 			u = append(u, c)
+		case "bom": // starts with U+FEFF (a legal character of the string, not a byte order mark to strip)
+			if len(u) == 0 {
+				u = append(u, 0xFEFF)
+			} else {
+				u = append(u, uint16(32+rng.Intn(95)))
+			}
 		case "latin1": // every code point below U+0100, some of them above U+007F
 			c := uint16(0x20 + rng.Intn(0x5F))
 			if rng.Intn(3) == 0 || len(u) == 0 {
@@ -134,4 +141,33 @@ func c17Text(rng *core.RNG, kind string, n int) []uint16 {
 		}
 	}
 	return u
+}
+
+func c04DeclXY(s *libSpace) (r, g, b, w refcolor.XY) {
+	f := func(c func() (x, y float32)) refcolor.XY {
+		x, y := c()
+		return refcolor.XY{X: float64(x), Y: float64(y)}
+	}
+	r = f(func() (float32, float32) { c := s.PR(); return c.X, c.Y })
+	g = f(func() (float32, float32) { c := s.PG(); return c.X, c.Y })
+	b = f(func() (float32, float32) { c := s.PB(); return c.X, c.Y })
+	w = f(func() (float32, float32) { c := s.White(); return c.X, c.Y })
+	return
+}
+
+// shortByteReader is a hand-written binary.Reader that returns short counts.
+type shortByteReader struct{ s *src.Source }
+
+func (r shortByteReader) Read(p []byte) (int, error) { return r.s.Read(p) }
+func (r shortByteReader) ReadByte() (byte, error) {
+	var b [1]byte
+	for {
+		n, err := r.s.Read(b[:])
+		if n == 1 {
+			return b[0], nil
+		}
+		if err != nil {
+			return 0, err
+		}
+	}
 }
